@@ -129,6 +129,48 @@ type c08World struct {
 	log   *logrus.Logger
 	st    *VStream
 	stats *VStats
+
+	// production-shaped mode (cpStart/cpReload): the control plane of the current generation, its
+	// dns{} section, and the instant the janitor goroutine that serves the store was started
+	// (0 = the janitor is parked and the histories call its body themselves)
+	plane    *ControlPlane
+	dnsConf  *config.Dns
+	tickBase int64
+}
+
+const c08JanitorPeriod = 30 * c08Sec
+
+// sleepUntil advances the virtual clock to t.  When the real janitor goroutine is running, every
+// tick on the way is observed: key set before, let the goroutine finish (synctest.Wait), key set
+// after — emitted as a `jan` line at the tick's instant.
+func (w *c08World) sleepUntil(t int64) {
+	if w.tickBase != 0 {
+		for {
+			now := time.Now().UnixNano()
+			k := (now-w.tickBase)/c08JanitorPeriod + 1
+			tick := w.tickBase + k*c08JanitorPeriod
+			if tick > t {
+				break
+			}
+			before := w.keys()
+			c08SleepUntil(tick)
+			synctest.Wait()
+			after := map[string]bool{}
+			for _, key := range w.keys() {
+				after[key] = true
+			}
+			var gone []string
+			for _, key := range before {
+				if !after[key] {
+					gone = append(gone, key)
+				}
+			}
+			w.st.Emit(fmt.Sprintf("jan t=%d ev=%s", tick, c08KeysStr(gone)), "ev="+c08KeysStr(gone))
+			w.stats.Inc("op.jan_real_ticker")
+			w.stats.Add("janitor.evicted_by_real_ticker", len(gone))
+		}
+	}
+	c08SleepUntil(t)
 }
 
 func (w *c08World) cfgObserved() string {
@@ -137,6 +179,8 @@ func (w *c08World) cfgObserved() string {
 }
 
 func (w *c08World) newController(cfg c08Cfg) {
+	// the real janitor goroutine must not fire on its own here: the history decides when it runs
+	dnsCacheJanitorInterval = 24 * 365 * 50 * time.Hour
 	if w.c != nil {
 		_ = w.c.Close()
 	}
@@ -204,7 +248,7 @@ func c08Fqdn(host string) string {
 
 // ins: UpdateDnsCacheTtlWithKey / UpdateDnsCacheTtl
 func (w *c08World) ins(t int64, key, host string, qtype uint16, ttl int, ans, n, ns int) {
-	c08SleepUntil(t)
+	w.sleepUntil(t)
 	_, ipErr := netip.ParseAddr(strings.TrimSuffix(host, "."))
 	op := fmt.Sprintf("ins t=%d key=%s host=%s qtype=%d ttl=%d ans=%d n=%d ns=%d ip=%s", t, c08Hex(key), c08Hex(host), qtype, ttl, ans, n, ns, c08B(ipErr == nil))
 	out := VRecover(func() string {
@@ -225,7 +269,7 @@ func (w *c08World) ins(t int64, key, host string, qtype uint16, ttl int, ans, n,
 
 // insn: NormalizeAndCacheDnsResp_ on an upstream reply (the call dialSend makes)
 func (w *c08World) insn(t int64, key, host string, qtype uint16, rttl uint32, ans, n, ns, rcode int) {
-	c08SleepUntil(t)
+	w.sleepUntil(t)
 	_, ipErr := netip.ParseAddr(strings.TrimSuffix(host, "."))
 	op := fmt.Sprintf("insn t=%d key=%s host=%s qtype=%d rttl=%d ans=%d n=%d ns=%d rcode=%d ip=%s", t, c08Hex(key), c08Hex(host), qtype, rttl, ans, n, ns, rcode, c08B(ipErr == nil))
 	out := VRecover(func() string {
@@ -296,7 +340,7 @@ func (w *c08World) lookupRaw(key, qname string, qtype uint16, ign bool) c08Hit {
 }
 
 func (w *c08World) look(t int64, key, qname string, qtype uint16, ign bool) c08Hit {
-	c08SleepUntil(t)
+	w.sleepUntil(t)
 	op := fmt.Sprintf("look t=%d key=%s ign=%s", t, c08Hex(key), c08B(ign))
 	var h c08Hit
 	out := VRecover(func() string {
@@ -309,7 +353,7 @@ func (w *c08World) look(t int64, key, qname string, qtype uint16, ign bool) c08H
 
 // clook: g goroutines look the same key up at the same virtual instant
 func (w *c08World) clook(t int64, key, qname string, qtype uint16, g int) {
-	c08SleepUntil(t)
+	w.sleepUntil(t)
 	op := fmt.Sprintf("clook t=%d key=%s g=%d", t, c08Hex(key), g)
 	out := VRecover(func() string {
 		var hits, rf, ready atomic.Int64
@@ -339,7 +383,7 @@ func (w *c08World) clook(t int64, key, qname string, qtype uint16, g int) {
 }
 
 func (w *c08World) jan(t int64) []string {
-	c08SleepUntil(t)
+	w.sleepUntil(t)
 	before := w.keys()
 	var crash string
 	out := VRecover(func() string {
@@ -404,8 +448,138 @@ func (w *c08World) reconf(cfg c08Cfg) {
 	w.st.Emit("reconf "+cfg.opStr(), out)
 }
 
+// ---------------------------------------------------------------- production-shaped configuration path
+
+func (c c08Cfg) dnsSection() *config.Dns {
+	d := &config.Dns{OptimisticCache: c.opt, OptimisticCacheTtl: c.stale, MaxCacheSize: c.max}
+	for _, f := range c.fixed {
+		d.FixedDomainTtl = append(d.FixedDomainTtl, config.KeyableString(fmt.Sprintf("%s: %d", f.name, f.ttl)))
+	}
+	return d
+}
+
+// c08NewPlane is the DNS part of NewControlPlane on a skeletal ControlPlane: the five assignments
+// that record the dns{} section (control_plane.go, "/// Dns controller."), then the controller is
+// built from the PRODUCTION option builder (*ControlPlane).dnsControllerOption().
+func (w *c08World) c08NewPlane(d *config.Dns) (*ControlPlane, error) {
+	plane := &ControlPlane{log: w.log}
+	fixedDomainTtl, err := ParseFixedDomainTtl(d.FixedDomainTtl)
+	if err != nil {
+		return nil, err
+	}
+	plane.dnsFixedDomainTtl = fixedDomainTtl
+	plane.dnsOptimisticCache = d.OptimisticCache
+	plane.dnsOptimisticCacheTtl = d.OptimisticCacheTtl
+	plane.dnsMaxCacheSize = d.MaxCacheSize
+	plane.dnsIpVersionPrefer = d.IpVersionPrefer
+	plane.dnsController, err = NewDnsController(nil, plane.dnsControllerOption())
+	if err != nil {
+		return nil, err
+	}
+	c08DetachCallbacks(plane.dnsController)
+	return plane, nil
+}
+
+// c08DetachCallbacks replaces, in the runtime the production code installed, only the callbacks that
+// reach into the (absent) eBPF core / routing matcher; behaviour configuration and the
+// fixed_domain_ttl table stay exactly as production put them there.
+func c08DetachCallbacks(ctl *DnsController) {
+	if ctl == nil {
+		return
+	}
+	rt := *ctl.runtimeState.Load()
+	rt.cacheAccessCallback, rt.cacheRemoveCallback, rt.cacheDeleteCallback = nil, nil, nil
+	rt.newCache = func(fqdn string, answers, ns, extra []dnsmessage.RR, deadline time.Time, originalDeadline time.Time) (*DnsCache, error) {
+		return &DnsCache{NS: ns, Extra: extra, Answer: answers, Deadline: deadline, OriginalDeadline: originalDeadline}, nil
+	}
+	ctl.runtimeState.Store(&rt)
+}
+
+func c08SameDns(a, b *config.Dns) bool { // what cmd.dnsConfigEqual decides on, for the fields used here
+	if a.OptimisticCache != b.OptimisticCache || a.OptimisticCacheTtl != b.OptimisticCacheTtl ||
+		a.MaxCacheSize != b.MaxCacheSize || len(a.FixedDomainTtl) != len(b.FixedDomainTtl) {
+		return false
+	}
+	for i := range a.FixedDomainTtl {
+		if a.FixedDomainTtl[i] != b.FixedDomainTtl[i] {
+			return false
+		}
+	}
+	return true
+}
+
+// cpStart: first start of dae with this dns{} section; the janitor goroutine runs for real.
+func (w *c08World) cpStart(cfg c08Cfg) {
+	out := VRecover(func() string {
+		dnsCacheJanitorInterval = time.Duration(c08JanitorPeriod)
+		d := cfg.dnsSection()
+		plane, err := w.c08NewPlane(d)
+		if err != nil {
+			return "err:" + err.Error()
+		}
+		w.plane, w.dnsConf, w.c = plane, d, plane.dnsController
+		w.tickBase = time.Now().UnixNano()
+		return "cfg " + w.cfgObserved()
+	})
+	w.st.Emit("cfg "+cfg.opStr(), out)
+}
+
+// cpReload: a reload.  As cmd/reload_manager decides: an unchanged dns{} section reuses the
+// controller through (*ControlPlane).ReuseDNSControllerFrom (model: configuration swap on the same
+// store — with the SAME configuration); a changed one starts a new controller and replays the
+// clone of the old cache (model: reload clone).
+func (w *c08World) cpReload(cfg c08Cfg) {
+	d := cfg.dnsSection()
+	if c08SameDns(d, w.dnsConf) {
+		out := VRecover(func() string {
+			plane, err := w.c08NewPlane(d)
+			if err != nil {
+				return "err:" + err.Error()
+			}
+			prevCtl := w.plane.dnsController
+			if !plane.ReuseDNSControllerFrom(w.plane) {
+				return "reuse-refused"
+			}
+			c08DetachCallbacks(prevCtl)
+			c08DetachCallbacks(plane.dnsController)
+			w.plane, w.dnsConf, w.c = plane, d, plane.dnsController
+			return "reconf " + w.cfgObserved()
+		})
+		w.st.Emit("reconf "+cfg.opStr(), out)
+		w.stats.Inc("op.cpreload_reuse")
+		return
+	}
+	out := VRecover(func() string {
+		clones := w.plane.CloneDnsCache()
+		plane, err := w.c08NewPlane(d)
+		if err != nil {
+			return "err:" + err.Error()
+		}
+		base := time.Now().UnixNano()
+		n := plane.dnsController.RestoreReloadCache(clones, nil, time.Now())
+		_ = w.plane.dnsController.Close()
+		w.plane, w.dnsConf, w.c = plane, d, plane.dnsController
+		w.tickBase = base
+		return fmt.Sprintf("reload %s n=%d", w.cfgObserved(), n)
+	})
+	w.st.Emit("reload "+cfg.opStr(), out)
+	w.stats.Inc("op.cpreload_new_controller")
+}
+
+// selfRestore: what RebuildReloadDatapath does after a failed staged hand-over — the cache is cloned
+// and the clones are restored into the SAME live controller (model: reload clone, same configuration).
+func (w *c08World) selfRestore(cfg c08Cfg) {
+	out := VRecover(func() string {
+		clones := w.c.CloneCacheForReload()
+		n := w.c.RestoreReloadCache(clones, nil, time.Now())
+		return fmt.Sprintf("reload %s n=%d", w.cfgObserved(), n)
+	})
+	w.st.Emit("reload "+cfg.opStr(), out)
+	w.stats.Inc("op.self_restore")
+}
+
 func (w *c08World) rdone(t int64, key, qname string, qtype uint16) {
-	c08SleepUntil(t)
+	w.sleepUntil(t)
 	out := VRecover(func() string {
 		msg := new(dnsmessage.Msg)
 		msg.SetQuestion(dnsmessage.Fqdn(qname), qtype)
@@ -652,11 +826,21 @@ func (w *c08World) classify(cfg c08Cfg, sh []c08Shadow, key string, t int64) {
 }
 
 // c08History runs one random history in its own synctest bubble.
-func c08History(t *testing.T, r *VRand, st *VStream, stats *VStats, log *logrus.Logger, nOps int) {
+//
+// cp = production-shaped mode: configuration travels through the skeletal ControlPlane and the
+// production option builder, reloads go through ReuseDNSControllerFrom / CloneDnsCache, and the
+// janitor is the real goroutine on its real 30 s ticker (never called by hand).
+func c08History(t *testing.T, r *VRand, st *VStream, stats *VStats, log *logrus.Logger, nOps int, cp bool) {
 	synctest.Test(t, func(t *testing.T) {
 		w := &c08World{log: log, st: st, stats: stats}
 		cfg := c08RandCfg(r, stats)
-		w.cfg(cfg)
+		if cp {
+			w.cpStart(cfg)
+			stats.Inc("history.production_shaped")
+		} else {
+			w.cfg(cfg)
+			stats.Inc("history.direct")
+		}
 		defer func() { _ = w.c.Close() }()
 		routes := c08Routes()
 		// a small universe of (name, qtype, route) so that keys collide on purpose
@@ -683,7 +867,11 @@ func c08History(t *testing.T, r *VRand, st *VStream, stats *VStats, log *logrus.
 		now := time.Now().UnixNano()
 		ansCounter := r.Intn(1000)
 		for i := 0; i < nOps; i++ {
-			now = c08NextTime(r, stats, now, cfg, sh)
+			next := c08NextTime(r, stats, now, cfg, sh)
+			if cp && next-now > 20*c08JanitorPeriod {
+				next = now + 20*c08JanitorPeriod // every tick on the way is a real janitor run: keep them countable
+			}
+			now = next
 			sl := slots[r.Intn(nSlots)]
 			name := c08NameVariant(r, stats, sl.base)
 			key := w.realKey(name, sl.qtype, sl.route)
@@ -763,10 +951,23 @@ func c08History(t *testing.T, r *VRand, st *VStream, stats *VStats, log *logrus.
 			case x < 79:
 				w.clook(now, key, name, sl.qtype, r.Range(2, 16))
 				stats.Inc("op.clook")
+			case x < 88 && cp:
+				// let the real ticker come round: idle for up to two janitor periods
+				now += int64(r.Range(3, 65)) * c08Sec
+				w.sleepUntil(now)
+				w.emitKeys()
+				stats.Inc("op.idle_across_ticks")
 			case x < 88:
 				gone := w.jan(now)
 				stats.Inc("op.jan")
 				stats.Add("janitor.evicted", len(gone))
+			case x < 89:
+				w.selfRestore(cfg)
+			case x < 93 && cp:
+				if r.Bool() {
+					cfg = c08RandCfg(r, stats) // dns{} edited: new controller, cache cloned
+				}
+				w.cpReload(cfg)
 			case x < 91:
 				cfg = c08RandCfg(r, stats)
 				w.reload(cfg)
@@ -1009,7 +1210,7 @@ func TestVerifC08(t *testing.T) {
 		if i%10 == 0 {
 			n = nOps * 3
 		}
-		c08History(t, r.Fork(), st, stats, log, n)
+		c08History(t, r.Fork(), st, stats, log, n, i%4 == 3)
 	}
 	st.Emit("cov", "cov") // the model driver answers with its branch counters (ignored by the diff)
 }
